@@ -22,8 +22,8 @@ def comps(shape):
 
 class C10(Prop):
     pid = "C10"
-    lean_modules = ["UflVerif.Props.C10", "UflVerif.Props.C10Rename", "UflVerif.Props.C10Subst"]
-    min_theorems = 20
+    lean_modules = ["UflVerif.Props.C10", "UflVerif.Props.C10Rename", "UflVerif.Props.C10Subst", "UflVerif.Props.C10Expand"]
+    min_theorems = 28
     trusted = ["correspondence harness/props/c10.py + Drivers/C10.lean; value oracle through Drivers/Expr.lean `eval`",
                "modelled rather than verified: map_expr_dag memoisation (results are functions of structure, C19), object identity in reuse_if_untouched modelled by structural equality, "
                "IndexExpander.form_argument's symmetry mapping (elements with symmetry are not generated), float literal folding exact"]
